@@ -2,10 +2,13 @@
    Proved for every role table and every run: the last sentence of the property ("actors that did not watch and are not
    the parent are not notified", C06_notified_only_if_entitled), and the upper half of the counting clause ("exactly one":
    never two — C06_no_duplicate_notice, a flow inequality over every kernel operation, Kernel/Notice.v). PARTIAL for the
-   lower half ("at least one"): concrete executions of each case (parent that also watches, late watch of a terminating
-   actor, watch of an address that never existed, non-watchers); that a notice is never lost is checked on every run by
-   the lockstep correspondence and the monitor C06:missing-notification. *)
-From MV Require Import Lib.ListX Kernel.Model Kernel.Run Kernel.Lifecycle Kernel.Watch Kernel.Notice.
+   lower half ("at least one"): C06_termination_notifies_every_watcher (Kernel/Fanout.v) proves that the step in which an
+   actor becomes terminated puts one more notice into the mailbox of every registered watcher and of the parent, from
+   any state; that the queued notice is then handled (the watcher's mailbox is drained in order — C02 — and a notice is
+   dropped only by a watcher that has itself terminated) is not a separate theorem: concrete executions of each case
+   (parent that also watches, late watch of a terminating actor, watch of an address that never existed, non-watchers)
+   and, on every run, the lockstep correspondence and the monitor C06:missing-notification. *)
+From MV Require Import Lib.ListX Kernel.Model Kernel.Run Kernel.Lifecycle Kernel.Registry Kernel.Watch Kernel.Notice Kernel.Fanout.
 Open Scope Z_scope.
 
 Definition count_to (observer who : ref) (os : list (list obs)) : nat :=
@@ -46,6 +49,21 @@ Example C06_no_duplicate_tight :
   n_handled 0 9 (concat os) = 2%nat /\ n_watch 0 9 (concat os) = 2%nat /\ n_spawn 0 9 (concat os) = 0%nat.
 Proof. vm_compute. repeat split; reflexivity. Qed.
 
+(* Fan-out. From ANY state with a well-formed registry (every reachable state has one: RI_reachable), for every role table and
+   every step: if the step makes actor object u terminated (it was not before), then for every address x in the watcher
+   table u terminated with, and for u's parent, the object registered under x at the beginning of the step has, after the
+   step, at least one more notice "u's address terminated" in its mailbox (in flight or in the system queue) than before:
+   the notice is sent in the very step of the termination, to everyone entitled, and nothing else in that step takes a
+   system message out of another object's mailbox. (x other than u's own address: an actor watching itself is
+   unregistered before its notices are sent.) *)
+Theorem C06_termination_notifies_every_watcher : forall roles s l s' o u a a',
+  RI s -> kstep roles s l = Some (s', o) -> get s u = Some a -> a_st a <> Terminated -> get s' u = Some a' -> a_st a' = Terminated ->
+  forall x v b, In x (a_watchers a') \/ x = a_parent a' -> x <> a_tok a' -> x <> rNone ->
+    lookup x (registry s) = Some v -> get s v = Some b ->
+    exists b', get s' v = Some b' /\ (nn (a_tok a') b + 1 <= nn (a_tok a') b')%nat.
+Proof. exact fanout_step. Qed.
+Print Assumptions C06_termination_notifies_every_watcher.
+
 (* the terminated actor's own steps never produce a notification to itself or anyone once it is Terminated *)
 Theorem C06_terminated_is_silent_partial : forall roles s u a s' o,
   get s u = Some a -> a_st a = Terminated -> run_actor roles s u = Some (s', o) -> existsb is_handled o = false.
@@ -57,8 +75,125 @@ Print Assumptions C06_terminated_is_silent_partial.
 Definition c06_roles : list role :=
   [ {| victim := None; sup := [DStop]; rules := [ {| r_on := KL; r_n := -1; r_inst := -1; r_do := [ASpawn 1 1; ASpawn 2 1; AWatch 1; AWatch 9] |} ] |};
     {| victim := None; sup := []; rules := [] |} ].
+(* the premises are met: in the run of C06_example below, the step in which actor 1 (uid 3, watched by its parent 0 — whose
+   watch is ignored, the parent is notified anyway) terminates puts the notice into the mailbox of 0 (uid 2) *)
+Example C06_fanout_example :
+  exists ls s os l s' o a a' b b',
+    krun c06_roles kinit ls = Some (s, os) /\ kstep c06_roles s l = Some (s', o) /\
+    get s 3%nat = Some a /\ a_st a <> Terminated /\ get s' 3%nat = Some a' /\ a_st a' = Terminated /\ a_parent a' = 0 /\
+    lookup 0 (registry s) = Some 2%nat /\ get s 2%nat = Some b /\ get s' 2%nat = Some b' /\ nn 1 b = 0%nat /\ nn 1 b' = 1%nat.
+Proof.
+  exists [LSpawn 0 0; LRun 2; LRun 3; LRun 4; LTerm 1 false; LRun 3]. eexists. eexists. exists (LRun 3).
+  eexists. eexists. eexists. eexists. eexists. eexists.
+  split; [vm_compute; reflexivity|]. split; [vm_compute; reflexivity|]. split; [vm_compute; reflexivity|].
+  split; [vm_compute; discriminate|]. split; [vm_compute; reflexivity|]. vm_compute. repeat split; reflexivity.
+Qed.
+
 Example C06_example :
   let '(s, os) := play c06_roles kinit [LSpawn 0 0; LTerm 1 false; LShutdown false; LEnd] in
   quiet s = true /\ closed s = true /\
   count_to 0 1 os = 1%nat /\ count_to 0 9 os = 1%nat /\ count_to 2 1 os = 0%nat /\ count_to 0 2 os = 1%nat.
+Proof. vm_compute. repeat split; reflexivity. Qed.
+
+(* ======================================================================================================================
+   Remote watch (second sub-check of C06): the counting clause for watchers on TWO nodes.
+   Model MV.C06.RemoteWatchModel: the watch bookkeeping of ONE target actor (onWatch / onUnWatch / tryTerminated, the
+   dead-letter process) with watchers identified by (node, name) — (0, n) and (1, n) are different actors with the same
+   logical address —, the parent (0, 0), operations RWatch w / RUnwatch w / RTermBegin (the target starts terminating and
+   waits for its child) / RTermEnd (tryTerminated completes), each run to quiescence on both nodes; observable
+   [notices w s] = number of OnTerminated(target) w has handled.  The table key is a parameter: the code's key (the
+   sender's full URL) is [key_full]; the theorems hold for every INJECTIVE key.  [history pre mid post] =
+   pre ++ RTermBegin :: mid ++ RTermEnd :: post, [calm l] = no termination step in l, [last_req w l] = w's last request
+   in l, [nwatch w l] / [nunwatch w l] = number of Watch / Unwatch requests of w in l.  Tied on every run to two real
+   linked actor systems (harness/cmd/c06remote).  Every statement is for EVERY operation sequence of its shape. *)
+From MV Require Import C06.RemoteWatchModel C06.RemoteWatchRun C06.RemoteWatchProofs.
+
+(* A watcher (not the parent) whose last request before the termination began was a Watch and who did not unwatch while
+   the target was terminating handles exactly one notice for it, plus one per Watch that raced with the termination
+   (answered at once by the terminating target), plus one per Watch issued after it (answered by the dead-letter
+   process) — whatever anybody else, in particular its namesake on the other node, requested. *)
+Theorem C06_remote_watching_notified_exactly_once : forall key, injective key -> forall w pre mid post,
+  w <> rw_parent -> calm pre -> calm mid ->
+  last_req w pre = Some ReqWatch -> nunwatch w mid = 0%nat ->
+  notices w (rrun key (rinit false) (history pre mid post)) = (1 + nwatch w mid + nwatch w post)%nat.
+Proof. exact rw_watching_notified_exactly_once. Qed.
+Print Assumptions C06_remote_watching_notified_exactly_once.
+
+(* A watcher that never asked, or whose last request before the termination was an Unwatch, or that unwatched while the
+   target was terminating, handles no notice for the termination: only the answers to its racing and later Watches. *)
+Theorem C06_remote_not_watching_not_notified : forall key, injective key -> forall w pre mid post,
+  w <> rw_parent -> calm pre -> calm mid ->
+  last_req w pre <> Some ReqWatch \/ nunwatch w mid <> 0%nat ->
+  notices w (rrun key (rinit false) (history pre mid post)) = (nwatch w mid + nwatch w post)%nat.
+Proof. exact rw_not_watching_not_notified. Qed.
+Print Assumptions C06_remote_not_watching_not_notified.
+
+(* The parent handles exactly one notice for the termination whatever it or anybody requested before or during it (a
+   watching parent is not notified twice), plus one per Watch it issues once the target is gone. *)
+Theorem C06_remote_parent_notified_exactly_once : forall key, injective key -> forall pre mid post,
+  calm pre -> calm mid ->
+  notices rw_parent (rrun key (rinit false) (history pre mid post)) = (1 + nwatch rw_parent post)%nat.
+Proof. exact rw_parent_notified_exactly_once. Qed.
+Print Assumptions C06_remote_parent_notified_exactly_once.
+
+(* The property's sentence for the code's own key, the termination being one event: last request a Watch -> exactly one
+   notice (+ one per later Watch); last request an Unwatch, or none -> none (+ one per later Watch). *)
+Theorem C06_remote_atomic_watching : forall w pre post,
+  w <> rw_parent -> calm pre -> last_req w pre = Some ReqWatch ->
+  notices w (rrun key_full (rinit false) (pre ++ RTermBegin :: RTermEnd :: post)) = (1 + nwatch w post)%nat.
+Proof. exact rw_atomic_watching. Qed.
+Print Assumptions C06_remote_atomic_watching.
+
+Theorem C06_remote_atomic_not_watching : forall w pre post,
+  w <> rw_parent -> calm pre -> last_req w pre <> Some ReqWatch ->
+  notices w (rrun key_full (rinit false) (pre ++ RTermBegin :: RTermEnd :: post)) = nwatch w post.
+Proof. exact rw_atomic_not_watching. Qed.
+Print Assumptions C06_remote_atomic_not_watching.
+
+(* Nobody handles a notice before the termination begins. *)
+Theorem C06_remote_silent_while_alive : forall key, injective key -> forall w pre,
+  calm pre -> notices w (rrun key (rinit false) pre) = 0%nat.
+Proof. exact rw_silent_while_alive. Qed.
+Print Assumptions C06_remote_silent_while_alive.
+
+(* Watching an address under which nobody was ever registered: every Watch request is answered exactly once. *)
+Theorem C06_remote_absent_answered_once_per_watch : forall key, injective key -> forall w ops,
+  notices w (rrun key (rinit true) ops) = nwatch w ops.
+Proof. exact rw_absent_answered_once_per_watch. Qed.
+Print Assumptions C06_remote_absent_answered_once_per_watch.
+
+(* Frame: what w handles depends only on w's own requests and the termination steps ([proj w] keeps exactly those) ... *)
+Theorem C06_remote_frame : forall key, injective key -> forall w absent ops ops',
+  proj w ops = proj w ops' ->
+  notices w (rrun key (rinit absent) ops) = notices w (rrun key (rinit absent) ops').
+Proof. exact rw_frame. Qed.
+Print Assumptions C06_remote_frame.
+
+(* ... in particular a request of another watcher v (for instance (1, n) for w = (0, n): same name, other node), inserted
+   anywhere, never changes it. *)
+Theorem C06_remote_frame_other_watcher : forall key, injective key -> forall w v absent a b o,
+  v <> w -> o = RWatch v \/ o = RUnwatch v ->
+  notices w (rrun key (rinit absent) (a ++ o :: b)) = notices w (rrun key (rinit absent) (a ++ b)).
+Proof. exact rw_frame_other_watcher. Qed.
+Print Assumptions C06_remote_frame_other_watcher.
+
+(* The code's key is injective, so the model the correspondence runs ([rrun key_full]) is an instance. *)
+Theorem C06_remote_url_key_injective : injective key_full.
+Proof. exact key_full_injective. Qed.
+Print Assumptions C06_remote_url_key_injective.
+
+(* The hypotheses are met by a concrete history with same-name watchers on both nodes, a watching parent, duplicates,
+   unwatch, racing and late requests; its final counts for (0,0) (0,1) (0,2) (0,3) (1,0) (1,1) (1,2) (1,3): *)
+Example C06_remote_example :
+  calm ex_pre /\ calm ex_mid /\
+  last_req (1, 1)%nat ex_pre = Some ReqWatch /\ nunwatch (1, 1)%nat ex_mid = 0%nat /\
+  last_req (0, 1)%nat ex_pre = Some ReqUnwatch /\ last_req (1, 0)%nat ex_pre = Some ReqWatch /\ nunwatch (1, 0)%nat ex_mid = 1%nat /\
+  rw_view (rrun key_full (rinit false) (history ex_pre ex_mid ex_post)) = [2; 1; 1; 0; 0; 3; 0; 0]%nat.
+Proof. vm_compute. repeat split; reflexivity. Qed.
+
+(* Keyed by the logical address alone (not injective) the statement fails: the namesake's Watch overwrites the entry. *)
+Example C06_remote_keyed_by_name_refuted_example :
+  let pre := [RWatch (0, 1)%nat; RWatch (1, 1)%nat] in
+  calm pre /\ last_req (0, 1)%nat pre = Some ReqWatch /\
+  notices (0, 1)%nat (rrun key_name (rinit false) (history pre [] [])) = 0%nat.
 Proof. vm_compute. repeat split; reflexivity. Qed.
